@@ -232,6 +232,53 @@ def trace_inputs(steps, names=None):
     return vals
 
 
+class TraceView:
+    """what a CBMC counterexample says about the initial state: harness inputs (in_*), globals, the objects that
+    __CPROVER_is_fresh created for pointer parameters (<param>_wrapper -> dynamic_object$k) and their field values"""
+
+    def __init__(self, steps):
+        self.first = {}
+        self.last = {}
+        for s in steps or []:
+            if s.get('stepType') != 'assignment':
+                continue
+            lhs = s.get('lhs')
+            v = s.get('value', {})
+            if lhs is None:
+                continue
+            val = v.get('data', v.get('name'))
+            if val is None and 'elements' in v:
+                val = v
+            self.first.setdefault(lhs, val)
+            self.last[lhs] = val
+
+    def num(self, name, default=None):
+        v = self.first.get(name)
+        if v is None:
+            return default
+        m = re.match(r'-?\d+', str(v))
+        if m:
+            return int(m.group(0))
+        if str(v) in ('TRUE', 'FALSE'):
+            return int(str(v) == 'TRUE')
+        return default
+
+    def obj_of(self, param):
+        for key in (param + '_wrapper', param):
+            v = self.last.get(key) if key.endswith('_wrapper') else self.first.get(key)
+            if v:
+                m = re.search(r'(dynamic_object(\$\d+)?)', str(v))
+                if m:
+                    return m.group(1)
+        return None
+
+    def field(self, obj, path, default=None):
+        return self.num('%s.%s' % (obj, path), default) if obj else default
+
+    def elems(self, obj, n, default=0):
+        return [self.num('%s[%dl]' % (obj, i), self.num('%s[%d]' % (obj, i), default)) for i in range(n)]
+
+
 def run_jobs(jobs, workdir, ncpu=NCPU):
     os.makedirs(workdir, exist_ok=True)
     with ThreadPoolExecutor(max_workers=ncpu) as ex:
